@@ -186,6 +186,22 @@ def gsequ_rules(chk, cid, prog, p, cfgname):
         for ch in nd.c:
             walk(ch, guards)
     walk(f.body, [])
+    # each position report must leave the routine at once (nothing may overwrite it)
+    def followed_by_return(root, st):
+        for blk in root.walk():
+            if blk.k == 'Block':
+                for i, x in enumerate(blk.c):
+                    if x is st:
+                        return i + 1 < len(blk.c) and blk.c[i + 1].k == 'Return'
+        return False
+    for (st, guards) in stores:
+        n += 1
+        if not followed_by_return(f.body, st):
+            chk.violate(cid, '%s:info-report-returns:%s' % (f.name, pretty(st)[:40]), loc(f, st), f.name,
+                        'the position of an all-zero row / column must be returned at once: `%s` is not followed by `return`, so a later report can overwrite it'
+                        % pretty(st)[:60], cfgname=cfgname)
+        else:
+            chk.ok(cid, '%s:info-report-returns:%s' % (f.name, pretty(st)[:40]))
     for (st, guards) in stores:
         n += 1
         g = guards[-1] if guards else None
